@@ -11,7 +11,7 @@ from fractions import Fraction
 from .algebra import Rat
 from .effects import ATTRS, attr_reads_of_atom, summarise_method
 from .solver_ir import Loop, LoopPath, NATOM, atoms_deep, value_atoms
-from .sx import Q, N, Dyn, Bsym, Ov
+from .sx import Q, N, Dyn, Bsym, Ov, guards_at
 
 KIN = ('angular_position', 'angular_speed', 'angular_acceleration')
 _E_RE = re.compile(r'^E\[(.*)\]$')
@@ -256,8 +256,10 @@ class InstantBuilder:
     def events(self, effects, guards=()):
         """list[Ev] for a flat sequence of effects (loops become single events)"""
         out = []
+        path_guards = guards
         for e in effects:
             k = e[0]
+            guards = guards_at(e, path_guards)
             if k == 'store':
                 m = _E_RE.match(e[1])
                 rd, rt = self.reads_of_value(e[3])
